@@ -50,4 +50,12 @@ def run (p : Policy) : RL → List (Int × Int) → List Out
     let r := acquire p s now c
     r.2 :: run p r.1 rest
 
+/-- `RateLimiter.SetState(state)` (Extension resil; `State` as its number: 0 Normal, 1 Limiting,
+2 Disabled): nothing when the state is unchanged; leaving `StateDisabled` re-initialises the limiter
+(`cycle`, `tokens` := 0 and `startTime := now`, reported by the flag). -/
+def setState (s : RL) (cur new : Nat) : RL × Nat × Bool :=
+  if cur = new then (s, cur, false)
+  else if cur = 2 then (init, new, true)
+  else (s, new, false)
+
 end EgVerif.RateLimiter
